@@ -108,6 +108,21 @@ def _closure_of(prog, body, node):
     return None
 
 
+def _callable_of(prog, body, node):
+    """body of a closure aggregate or of a crate-local function passed by name (`.map(backtick_prefix_size)`)"""
+    cb = _closure_of(prog, body, node)
+    if cb is not None:
+        return cb
+    n = peel(node)
+    if n.kind == "const" and n.a.fn_item():
+        nm = n.a.fn_item()
+        cands = [b for b in prog.bodies if b.promoted is None and b.crate == body.crate and (b.path == nm or nm.endswith("::" + b.path) or b.path.endswith("::" + nm.split("::")[-1]) and b.kind == "Fn")]
+        cands = [b for b in cands if b.path.split("::")[-1] == nm.split("::")[-1]]
+        if len(cands) == 1:
+            return cands[0]
+    return None
+
+
 def _max_backtick_iterator_form(ctx, prog, m, r):
     """`lines().map(|l| l.chars().take_while(|c| *c == '`').count())` folded with max from a constant >= 2
     (`.fold(c, |a, b| b.max(a))`, or `.max().unwrap_or(_).max(c)`). Returns False if the function has another form."""
@@ -128,15 +143,23 @@ def _max_backtick_iterator_form(ctx, prog, m, r):
         init = peel(n.kids[1])
         fc = _closure_of(prog, m, n.kids[2])
         fr = peel(Origins(fc).local(0)) if fc is not None else None
-        if init.kind == "const" and fr is not None and fr.kind == "call" and method_name(fr.a) in ("Ord::max", "cmp::max") and \
-                sorted(peel(k).a for k in fr.kids if peel(k).kind == "arg") == [2, 3]:
+        f3 = peel(n.kids[2])
+        by_name = f3.kind == "const" and f3.a.fn_item() and f3.a.fn_item().split("::")[-1] == "max" and ("Ord" in f3.a.fn_item() or "cmp" in f3.a.fn_item() or "usize" in f3.a.fn_item())
+        init_v = init.a.as_int() if init.kind == "const" else None
+        if init_v is None and init.kind == "const" and init.a.item:
+            try:
+                init_v = prog.const(init.a.item.split("::")[-1]).as_int()
+            except Exception:
+                init_v = None
+        if init_v is not None and (by_name or (fr is not None and fr.kind == "call" and method_name(fr.a) in ("Ord::max", "cmp::max") and
+                                               sorted(peel(k).a for k in fr.kids if peel(k).kind == "arg") == [2, 3])):
             acc = "fold-max"
-            lower = max(lower or 0, init.a.as_int())
+            lower = max(lower or 0, init_v)
         n = peel(n.kids[0])
     if acc is None or not (n.kind == "call" and method_name(n.a) == "Iterator::map" and len(n.kids) == 2):
         return False
     src = peel(n.kids[0])
-    cc = _closure_of(prog, m, n.kids[1])
+    cc = _callable_of(prog, m, n.kids[1])
     if cc is None:
         return False
     ctx.check(lower is not None and lower >= 2, "max:init", m.where(), "max_backtick_size is at least %s (so the fence has at least 3 backticks)" % lower,
@@ -574,6 +597,34 @@ def r9_10(ctx):
                       "`[0]` line again - updating an already updated document changes it")
     if n < 2:
         ctx.bad("exit-code-sites", g.where(), "only %d `[n]` writes found in the test generator (2 confirmed by reading: generate_testcase_exit_code and the InvalidExitCode arm)" % n)
+    # (b') validation returns InvalidExitCode *before* it diffs the output: in that arm nothing is known about the old expectations, they must not be written back
+    for sb, st in switches(g):
+        ve, rvv = variant_edges(g, sb)
+        if ve is None or "InvalidExitCode" not in ve:
+            continue
+        back = g.back_edges()
+        reg = set(g.reachable(ve["InvalidExitCode"], removed_edges=back))
+        for v_, tg_ in ve.items():
+            if v_ != "InvalidExitCode":
+                reg -= set(g.reachable(tg_, removed_edges=back)) - set(g.reachable(ve["InvalidExitCode"], removed_edges=back) if False else set())
+        only = set(g.reachable(ve["InvalidExitCode"], removed_edges=back))
+        for v_, tg_ in ve.items():
+            if v_ != "InvalidExitCode":
+                only -= set(g.reachable(tg_, removed_edges=back))
+        reuse = []
+        for bb, t in g.calls():
+            if bb in only and (mname(t) or "").endswith("original_string"):
+                reuse.append(g.loc(bb))
+        for bi, blk in enumerate(g.blocks):
+            if bi in only:
+                for st_ in blk["stmts"]:
+                    if st_["k"] == "assign" and st_["rv"]["k"] == "agg" and st_["rv"].get("agg") == "closure":
+                        cb = prog.body_by_def(st_["rv"]["def"], g.crate)
+                        if cb is not None and any((mname(t2) or "").endswith("original_string") for _, t2 in cb.calls()):
+                            reuse.append(g.loc(bi))
+        ctx.check(not reuse, "invalid-exit-code-regenerates", reuse[0] if reuse else g.loc(sb), "the InvalidExitCode arm writes no expectation of the old test (they were never compared with the output)",
+                  "the InvalidExitCode arm writes old expectations back (original_string): validation returns that error before it looks at the output, so when exit code and "
+                  "output changed together the written test carries stale expectations and fails against the output it was generated from")
     # (b) the regenerated stream
     o = Origins(g)
     sites = [(bb, t) for bb, t in g.calls() if mname(t) == "OutputStream::to_output_string"]
@@ -604,6 +655,19 @@ def r9_10(ctx):
                     if method_name(tree.a) == "PartialEq::ne":
                         neg = not neg
                     sel = (sb, be[1] if neg else be[0], be[0] if neg else be[1])
+        if sel is None:
+            # match form: `match self.testcase.config.output_stream { Some(OutputStreamControl::Stderr) => &self.output.stderr, _ => &self.output.stdout }`
+            for sb2, st2 in switches(g):
+                ve2, rv2 = variant_edges(g, sb2)
+                if ve2 is None or "Stderr" not in ve2:
+                    continue
+                names2 = [p_.get("n") for p_ in g.canon_place(rv2["place"])["p"] if isinstance(p_, dict) and "n" in p_]
+                if "output_stream" not in names2:
+                    continue
+                others2 = {tg for v_, tg in ve2.items() if v_ != "Stderr"}
+                if len(others2) == 1 and ve2["Stderr"] not in others2:
+                    # the outer `Some` / `None` switch sends None to the same block as the other variants
+                    sel = (sb2, ve2["Stderr"], others2.pop())
         good = flds == ["stderr", "stdout"] and sel is not None
         if good:
             sb, e_err, e_out = sel
@@ -619,7 +683,11 @@ def r9_10(ctx):
                             refs.setdefault(names[-1], []).append(bi)
             def only(b_, e_):
                 return b_ in g.reachable(e_) and b_ not in g.reachable(0, removed_edges=[(sb, e_)])
-            good = any(only(b_, e_err) for b_ in refs.get("stderr", [])) and any(only(b_, e_out) for b_ in refs.get("stdout", []))
+            # stderr only on the Stderr edge; stdout on the other edge(s) and never behind the Stderr edge (in the match form `None` joins the other arm)
+            back_ = g.back_edges()
+            behind_err = set(g.reachable(e_err, removed_edges=back_)) - set(g.reachable(e_out, removed_edges=back_))
+            good = any(only(b_, e_err) for b_ in refs.get("stderr", [])) and \
+                any(b_ in g.reachable(e_out) and b_ not in behind_err for b_ in refs.get("stdout", [])) and not any(b_ in behind_err for b_ in refs.get("stdout", []))
         ctx.check(good, "regenerated-stream", g.loc(bb), "the regenerated expectations come from output.stderr exactly on output_stream == Some(Stderr), else from output.stdout - as validate selects",
                   "the expectations of a test that failed on its exit code are regenerated from %s regardless of the configured stream: with `output_stream: stderr` the "
                   "written test is validated against stderr and fails on the very output it was generated from" % (flds or src.show()[:60]))
